@@ -195,7 +195,39 @@ func coqCase(k *Case) string {
 		return c.Tuple(c.Z(fl.id(e.Flow)), c.Z(keys.id(e.Key)), c.B(e.Dir == "req"), c.Z(condID(e.Cond)))
 	})
 	code := map[string]int64{"none": 0, "answered": 1, "error": 2}[t.Result]
-	return c.Tuple(flows, c.Tuple(s1, s2), rows, c.B(t.Dir == "req"), c.Tuple(evs, c.Z(code)))
+	base := c.Tuple(flows, c.Tuple(s1, s2), rows, c.B(t.Dir == "req"), c.Tuple(evs, c.Z(code)))
+	return c.Tuple(base, coqQuotaGroups(&k.Config, keys, fl))
+}
+
+// coqQuotaGroups: the quotas of the configuration grouped by filter, as listed in
+// the quota file - per group the names of its START / END system flows and per
+// quota its increment processor and (concurrent) its decrement processor.  The
+// Coq side generates the system flows from this (theories/C04/Quota.v) and checks
+// that they are the ones the harness read (config.go Compile).
+func coqQuotaGroups(cfg *Config, keys, fl *interner) string {
+	byURL := map[string][]QuotaCfg{}
+	var urls []string
+	for _, q := range cfg.Quotas {
+		if _, ok := byURL[q.URL]; !ok {
+			urls = append(urls, q.URL)
+		}
+		byURL[q.URL] = append(byURL[q.URL], q)
+	}
+	sort.Strings(urls)
+	return c.MapList(urls, func(u string) string {
+		qs := byURL[u]
+		return c.Tuple(
+			c.Z(fl.id("SystemFlow_"+qs[0].ID+"_SYSTEM_FLOW_START")),
+			c.Z(fl.id("SystemFlow_"+qs[0].ID+"_SYSTEM_FLOW_END")),
+			c.MapList(qs, func(q QuotaCfg) string {
+				id := strings.ReplaceAll(q.ID, ".", "")
+				dec := "None"
+				if q.Strategy == "concurrent" {
+					dec = c.Some(c.Z(keys.id(id + "_QuotaProcessorDec")))
+				}
+				return c.Tuple(c.Z(keys.id(id+"_QuotaProcessorInc")), dec)
+			}))
+	})
 }
 
 // ---------------------------------------------------------------- running
@@ -267,7 +299,7 @@ func runTxn(o *c.Out, cfg *Config, gs []GFlow, t *Txn) {
 	o.MonitorChecked(1)
 	hits, free := monitor(gs, t, orc)
 	if free {
-		o.Count("text-silent:answering-processor-without-response-node")
+		o.Count("F-C04d:answering-processor-without-response-node")
 	}
 	for _, h := range hits {
 		h.Suite, h.Index, h.Case = "txn", idx, k
@@ -385,7 +417,7 @@ func main() {
 	}
 	o := c.NewOut("C04")
 	o.ShardSize = 150
-	o.DeclareSuite("txn", "From Verif Require Import C04.Model.", "case", "run_case")
+	o.DeclareSuite("txn", "From Verif Require Import C04.Model C04.Quota C04.Suite.", "case_q", "run_case_checked")
 	e2eDeclare(o) // suite "e2e" (e2e.go): selection + execution + combination in one run
 	o.Rule("hand-written witness configurations, then random configurations: 1-3 user flows (<= 6 request and <= 4 " +
 		"response processors each; Filter / GenerateResponse / MockProcessor / Limiter; fan-out <= 3; unreachable " +
